@@ -250,16 +250,26 @@ class _World:
         return True
 
 
+def _conc(x, n):
+    # one path per value: hand a plain int to the code under test
+    for v in range(n):
+        if x == v:
+            return v
+    raise AssertionError("out of range")
+
+
 def history(pa: int, pb: int, ops: List[int]) -> bool:
     """
     pre: 0 <= pa <= 3 and 0 <= pb <= 3
-    pre: len(ops) <= B['hist'] and all(0 <= o < B['nopt'] * 8 + 2 for o in ops)
+    pre: len(ops) == B['hist']
     post: _
     """
+    # ops has fixed length; any value outside the menu ends the history early (so every shorter
+    # history is covered and the solver decides the elements one by one, in order)
     nopt = B["nopt"]
-    w = _World(pa, pb, nopt)
+    w = _World(_conc(pa, 4), _conc(pb, 4), nopt)
     for op in ops:
-        r = None
+        r = "end"
         for code in range(nopt * 8 + 2):
             if op == code:
                 if code >= nopt * 8:
@@ -269,6 +279,8 @@ def history(pa: int, pb: int, ops: List[int]) -> bool:
                 else:
                     r = w.request((code >> 2) & 1, KINDS[code & 3], w.opts[code >> 3])
                 break
+        if r == "end":
+            break
         if r == "stop":
             return True
         if r != "cont":
@@ -283,7 +295,19 @@ def history(pa: int, pb: int, ops: List[int]) -> bool:
 
 
 def _shards(tier):
-    return [("pa == %d" % a, "pb == %d" % b) for a in range(4) for b in range(4)]
+    # case split over the policies and, for the big policy pairs, over the first step
+    nopt = BOUNDS[tier]["nopt"]
+    first = [c for c in range(nopt * 8) if c & 1 == 0]      # will / do of either side: the only
+    rest = "ops[0] not in (%s)" % ", ".join(map(str, first))  # steps that can start a negotiation
+    out = []
+    for a in range(4):
+        for b in range(4):
+            base = ("pa == %d" % a, "pb == %d" % b)
+            if tier == "thorough" or (a == 3 and b != 0) or (b == 3 and a != 0):
+                out += [base + ("ops[0] == %d" % c,) for c in first] + [base + (rest,)]
+            else:
+                out.append(base)
+    return out
 
 
 HARNESSES = [H(history, shards=_shards, timeout={"quick": 90, "thorough": 1500})]
